@@ -364,7 +364,12 @@ func jobC18(c *rt.Ctx) {
 			if valueOf(&t).Cmp(op.op(a.v, other.v)) != 0 {
 				report(op.name+"-inplace", a, &other, &t, op.op(a.v, other.v), "wrong residue when out aliases the first operand")
 			}
-			c.Step(2)
+			t = a.x
+			op.f(&t, &other.x, &t)
+			if valueOf(&t).Cmp(op.op(other.v, a.v)) != 0 {
+				report(op.name+"-inplace", &other, a, &t, op.op(other.v, a.v), "wrong residue when out aliases the second operand")
+			}
+			c.Step(3)
 		}
 	}
 	// (1b) 32-bit: deviation-level-2 elements against the subset, both operand orders
